@@ -176,6 +176,9 @@ func (r *caseRun) applyCfg(spec string) {
 					id := atoi(strings.TrimPrefix(c, "c"))
 					if id == 0 {
 						cs = append(cs, discovery.StaticConfig{{}})
+					} else if id == 9 {
+						// a real static config with targets (fresh but DeepEqual value on every reload)
+						cs = append(cs, discovery.StaticConfig{mkGroup(9, "s9:9000:2")})
 					} else {
 						cs = append(cs, fakeCfg{Case: r.id, ID: id})
 						live[id] = true
@@ -215,6 +218,9 @@ func mkGroup(cfgID int, tok string) *targetgroup.Group {
 
 func (r *caseRun) upd(c, u string) {
 	id := atoi(strings.TrimPrefix(c, "c"))
+	if id == 0 || id == 9 {
+		return // static configs have no scripted discoverer
+	}
 	r.mu.Lock()
 	d := r.inst[id]
 	r.mu.Unlock()
@@ -507,6 +513,9 @@ func genCase(rng *h.Rng) []string {
 			}
 			if len(cs) > 0 && rng.Chance(4) {
 				cs = append(cs, "c0") // explicit static empty config
+			}
+			if rng.Chance(8) {
+				cs = append(cs, "c9") // real static config with targets
 			}
 			parts = append(parts, fmt.Sprintf("j%d=%s", j, strings.Join(cs, ",")))
 		}
